@@ -571,3 +571,18 @@ Proof.
     first [apply (covers_sound _ _ _ H1); lia | apply (covers_sound _ _ _ H2); lia
           | apply (covers_sound _ _ _ H3); lia | apply (covers_sound _ _ _ H4); lia].
 Qed.
+
+(* ---- histories: whatever the ShortMessage held before, after a successful
+   Compose the stored label and octets parse back to the text *)
+Theorem compose_step_parse m rs : Forall scalar rs ->
+  (forall r, In r rs -> mem r (known_bad_of (best rs)) = false) ->
+  (best rs = LGsm7 -> g7_clear rs) ->
+  (snd (compose_step m rs) = 1 /\ fst (compose_step m rs) = m) \/
+  (snd (compose_step m rs) = 0 /\ fst (fst (compose_step m rs)) = dc_of_label (best rs) /\
+   parse (fst (compose_step m rs)) = Ok rs).
+Proof.
+  intros Hs Hk Hc. unfold compose_step.
+  destruct (compose_parse rs Hs Hk Hc) as [->|(bs & -> & Hp)].
+  - left. split; reflexivity.
+  - right. cbn [fst snd]. split; [reflexivity|]. split; [reflexivity|exact Hp].
+Qed.
